@@ -109,6 +109,90 @@ pub fn check_batch(cx: &mut Cx, piece: Piece, from: usize, to: u64, class: &'sta
             break;
         }
     }
+    // the other ways of driving an Iterator must agree with repeated next(): after k calls of next(),
+    // count(), a fold-based drain, last() and nth(n) (also past the end) see exactly the rest
+    let reference = out.clone();
+    let total = reference.len();
+    let mut ks: Vec<usize> = vec![0, 1, 2, 3, 4, 5];
+    ks.push(total / 2);
+    ks.push(total.saturating_sub(1));
+    ks.push(total);
+    ks.sort();
+    ks.dedup();
+    for &k in ks.iter().filter(|&&k| k <= total) {
+        let r = guard(|| {
+            let mk = || {
+                let mut it = pm.into_iter();
+                for _ in 0..k {
+                    it.next();
+                }
+                it
+            };
+            let cnt = mk().count();
+            let drained: Vec<RMove> = mk().fold(Vec::new(), |mut v, m| {
+                v.push(RMove::of(m));
+                v
+            });
+            let mut fe: Vec<RMove> = Vec::new();
+            mk().for_each(|m| fe.push(RMove::of(m)));
+            let last = mk().last().map(RMove::of);
+            let rem = total - k;
+            let mut nths: Vec<(usize, Option<RMove>, usize)> = Vec::new();
+            for n in [0usize, 1, 2, rem.saturating_sub(1), rem, rem + 1, rem + 3] {
+                let mut it = mk();
+                let got = it.nth(n).map(RMove::of);
+                nths.push((n, got, it.len()));
+            }
+            let skipped: Vec<RMove> = mk().skip(1).map(RMove::of).collect();
+            (cnt, drained, fe, last, nths, skipped)
+        });
+        match r {
+            Ok((cnt, drained, fe, last, nths, skipped)) => {
+                let rest: Vec<RMove> = reference[k..].to_vec();
+                let mut rs = rest.clone();
+                rs.sort();
+                let mut ds = drained.clone();
+                ds.sort();
+                let mut fs = fe.clone();
+                fs.sort();
+                if cnt != rest.len() {
+                    cx.violation(format!("C17|count-after-next|piece={}|{}", piece_name(Some(piece)), class), format!("{}: after {} next() calls count() = {}, but {} moves remain", desc, k, cnt, rest.len()), desc.clone(), argv.clone());
+                }
+                if ds != rs || fs != rs {
+                    cx.violation(
+                        format!("C17|fold-drain-after-next|piece={}|{}", piece_name(Some(piece)), class),
+                        format!("{}: after {} next() calls a fold/for_each drain yields [{}], the remaining moves are [{}]", desc, k, drained.iter().map(|m| m.text()).collect::<Vec<_>>().join(" "), rest.iter().map(|m| m.text()).collect::<Vec<_>>().join(" ")),
+                        desc.clone(),
+                        argv.clone(),
+                    );
+                }
+                // last(): some remaining move when any remain (order within a promotion group is free,
+                // so only membership and emptiness are required)
+                if last.is_some() != !rest.is_empty() || last.map_or(false, |m| !rest.contains(&m)) {
+                    cx.violation(format!("C17|last-after-next|piece={}", piece_name(Some(piece))), format!("{}: after {} next() calls last() = {:?}", desc, k, last.map(|m| m.text())), desc.clone(), argv.clone());
+                }
+                for (n, got, len_after) in nths {
+                    let want_some = n < rest.len();
+                    let want_len = rest.len().saturating_sub(n + 1);
+                    if got.is_some() != want_some || got.map_or(false, |m| !rest.contains(&m)) || len_after != want_len {
+                        cx.violation(
+                            format!("C17|nth-after-next|piece={}|past-end={}", piece_name(Some(piece)), !want_some),
+                            format!("{}: after {} next() calls nth({}) = {:?} leaving len {} (remaining before: {})", desc, k, n, got.map(|m| m.text()), len_after, rest.len()),
+                            desc.clone(),
+                            argv.clone(),
+                        );
+                    }
+                }
+                if skipped.len() != rest.len().saturating_sub(1) {
+                    cx.violation(format!("C17|skip-after-next|piece={}", piece_name(Some(piece))), format!("{}: after {} next() calls skip(1) yields {} moves, expected {}", desc, k, skipped.len(), rest.len().saturating_sub(1)), desc.clone(), argv.clone());
+                }
+            }
+            Err(e) => {
+                cx.violation(format!("C17|panic|iterator-adaptors|piece={}", piece_name(Some(piece))), format!("{}: count/fold/last/nth/skip after {} next() calls panicked: {}", desc, k, e), desc.clone(), argv.clone());
+            }
+        }
+        cx.evals(12);
+    }
     match guard(|| (pm.len(), pm.is_empty())) {
         Ok((l, e)) => {
             if l != want.len() {
